@@ -23,6 +23,7 @@ type c18Case struct {
 	Size int     `json:"size,omitempty"`
 	Queue int    `json:"queue,omitempty"`
 	Spawn int    `json:"spawn,omitempty"`
+	Drain bool   `json:"drain,omitempty"`
 }
 
 type c18Obs struct {
@@ -58,7 +59,9 @@ func (p *c18Prop) Gen(r *Rng, i int, tier string) interface{} {
 		if spawn > 0 {
 			q = r.Intn(5)
 		}
-		return &c18Case{Kind: "pool", Size: size, Queue: q, Spawn: spawn, N: 10 + r.Intn(60)}
+		// Drain: the tasks wait on a gate, so workers are busy and the queue fills; the pool is CLOSED with that
+		// backlog, then the gate opens: what was accepted (Schedule returned nil) still runs, exactly once
+		return &c18Case{Kind: "pool", Size: size, Queue: q, Spawn: spawn, N: 10 + r.Intn(60), Drain: q > 0 && r.Chance(40)}
 	}
 	c := &c18Case{Kind: "seq"}
 	levels := []int{3, 15, 16, 17, 31, 32, 33, 63, 64, 65, 127, 128, 129, 255, 256, 257}
@@ -222,10 +225,19 @@ func (p *c18Prop) Run(ci interface{}) interface{} {
 		execs := make([]int32, c.N)
 		var running, maxc int32
 		var wg sync.WaitGroup
+		gate := make(chan struct{})
+		if !c.Drain {
+			close(gate)
+		}
+		to := 5 * time.Second
+		if c.Drain {
+			to = 5 * time.Millisecond // workers and queue are full soon: the rest is refused, not accepted
+		}
 		for k := 0; k < c.N; k++ {
 			k := k
 			wg.Add(1)
-			err := pl.ScheduleTimeout(5*time.Second, func() {
+			err := pl.ScheduleTimeout(to, func() {
+				<-gate
 				n := atomic.AddInt32(&running, 1)
 				for {
 					m := atomic.LoadInt32(&maxc)
@@ -242,6 +254,10 @@ func (p *c18Prop) Run(ci interface{}) interface{} {
 				wg.Done()
 				execs[k] = -1
 			}
+		}
+		if c.Drain {
+			_ = pl.Close()
+			close(gate)
 		}
 		done := make(chan struct{})
 		go func() { wg.Wait(); close(done) }()
